@@ -45,7 +45,8 @@ def motion(rng):
         return c + m
     k -= len(simple)
     if k == 0: return c + rng.pick([b"f", b"F", b"t", b"T"]) + rng.pick(CHARS)
-    if k == 1: return c + rng.pick([b"f", b"F", b"t", b"T"]) + rng.pick(CHARS)
+    if k == 1:   # a find followed by its repeats in both directions
+        return rng.pick([b"0", b"$", b""]) + c + rng.pick([b"f", b"F", b"t", b"T"]) + rng.pick(CHARS[:8]) + b"".join(cnt(rng) + rng.pick([b";", b","]) for _ in range(1 + rng.below(3)))
     if k == 2: return rng.pick([b"`", b"'"]) + rng.pick([b"a", b"b", b"'", b"`", b"z", b"[", b"]", b"^"])
     if k == 3: return c + rng.pick([b"/", b"?"]) + rng.pick(PATS) + rng.pick([b"\n", b"\n", b"\n", b"\x1b"])
     if k == 4: return c + b"/" + rng.pick(PATS) + b"/" + rng.pick([b"1", b"-1", b"+2", b"0", b"9"]) + b"\n"
@@ -147,6 +148,17 @@ def junk_cases(rng, n):
     """nonsensical and truncated key streams over valid UTF-8 text (C05)"""
     out = []
     for i in range(n):
+        if i % 25 == 0:
+            # pushback beyond the 4096-byte input buffer: a long change repeated with . and @ (count x length
+            # around and beyond 4096)
+            f = gen_file(rng)
+            body = b"abcdefghijklmnopqrstuvwxyz0123456789 ABCDEFGHIJKLMNOPQRSTUVWXYZ."[:20 + rng.below(44)]
+            ch = rng.pick([b"o", b"O", b"o"]) + body + b"\x1b"      # a new line each time: lines stay short
+            n = len(ch)
+            cnts = [4096 // n - 1, 4096 // n, 4096 // n + 1, 4096 // n + 2, 2 * (4096 // n) + 3, 4096, 1]
+            big = str(rng.pick(cnts)).encode()
+            ks = rng.pick([ch + big + b".", ch + big + b"." + b"3.", b"Oo" + body + b"\x16\x1b\x1b^\"qy$" + big + b"@q", ch + b"2." + big + b"."])
+            out.append(case(f, ks, 24, 80)); continue
         f = gen_file(rng, long=(rng.below(10) == 0))
         m = rng.below(4)
         if m < 2: ks = junk_keys(rng, 1 + rng.below(50))
@@ -248,7 +260,10 @@ def op_cases(rng, n, maxcmds=7):
                 m = rng.pick(movers + [b"f", b"F", b"t", b"T", b"f", b"F"] + [op])
                 if m in (b"f", b"F", b"t", b"T"): m += rng.pick(common)
                 parts.append(r + c + op + c2 + m)
-            elif k < 11: parts.append(r + c + rng.pick([b"x", b"X", b"D", b"Y"]))
+            elif k < 11:
+                if rng.below(3) == 0:      # an operator with % from either bracket
+                    parts.append(rng.pick([b"f)", b"f(", b"f]", b"f[", b"f}", b"f{", b"$", b"0"]) + r + rng.pick([b"d", b"y"]) + b"%")
+                else: parts.append(r + c + rng.pick([b"x", b"X", b"D", b"Y"]))
             elif k < 14: parts.append(r + rng.pick([b"", b"", b"2", b"3"]) + rng.pick([b"p", b"P"]))
             elif k == 14: parts.append(rng.pick([b"", b"2", b"3", b"4"]) + b"J")
             elif k == 15: parts.append(rng.pick([b"", b"2", b"3"]) + b"r" + rng.pick(common[:12]))
